@@ -26,8 +26,25 @@ def send_sites(R):
         start = None
         adapters = []
         item_local = None
-        if agg is not None and agg.rv.kind == "agg" and agg.rv.ops:
-            it_t = trace(stq, agg.rv.ops[0])
+        item_op = None
+        if agg is not None and agg.rv.kind == "agg":
+            # the captured segment: the upvar whose type is SegmentForSending (capture order is not stable)
+            for o in agg.rv.ops:
+                ot = trace(stq, o)
+                l = ot.root[1] if ot.kind in ("multi", "undef", "param") else (o.place.local if o.place is not None else None)
+                cand = []
+                if ot.kind in ("multi", "undef"):
+                    cand.append(ot.root[1])
+                if o.place is not None:
+                    cand.append(o.place.local)
+                for st_ in ot.steps:
+                    if isinstance(st_, Stmt) and st_.rv.place is not None:
+                        cand.append(st_.rv.place.local)
+                if any("SegmentForSending" in stq.local_ty(c) and "Option" not in stq.local_ty(c) and "Iterator" not in stq.local_ty(c) for c in cand):
+                    item_op = o
+                    break
+        if item_op is not None:
+            it_t = trace(stq, item_op)
             # op0 is `&mut item`: find the local and where its value comes from
             nxt = None
             if it_t.kind == "multi" or it_t.kind == "undef":
@@ -351,3 +368,41 @@ def c05_5(R):
                 R.fail([rto.name, "cwnd-after-rto", str(fconst(fu.amount))], "after an RTO the window is not collapsed to one segment", where=s.where(), instance="rto-collapse")
     if not ok:
         R.fail([rto.name, "no-cwnd-write"], "on_retransmission_timeout no longer writes cwnd", where=rto.where(), instance="rto-collapse")
+
+
+@rule("C05.6", ["C05", "C15"], ["E1", "E4"], "the congestion window is credited with exactly the newly cumulatively-acknowledged bytes",
+      "CongestionController::on_ack is called only from process_incoming_message (and by the tracing wrapper, forwarding its own parameters unchanged) with len <- on_ack_result.acked_bytes alone "
+      "(not a sum with the SACKed byte count: remove_up_to_ack already counts SACK-delivered segments into acked_bytes once the cumulative ACK catches up).")
+def c05_6(R):
+    F = R.facts
+    n = 0
+    for b in F.bodies():
+        for t in b.calls():
+            if call_matches(t, ("congestion::CongestionController::on_ack",)):
+                n += 1
+                fn = owner_fn(b)
+                src = value_sources(b, t.args[2])
+                if fn == VS + "::process_incoming_message":
+                    if src == {("field", "OnAckResult.acked_bytes")}:
+                        R.ok("on_ack-len-source", fn, "len <- on_ack_result.acked_bytes")
+                    else:
+                        R.fail([fn, "CongestionController::on_ack", "len-sources=" + sources_str(b, t.args[2])], "the congestion controller is credited with something other than exactly the cumulatively acknowledged bytes (slow start grows faster than the acknowledged data)", where=t.where(), instance="on_ack-len-source")
+                elif fn.startswith("<congestion::tracing::TracingController as"):
+                    if src in ({("param", "len")}, {("upvar", "len")}):
+                        R.ok("on_ack-len-source", "TracingController", "forwards len unchanged")
+                    else:
+                        R.fail([fn, "CongestionController::on_ack", "len-sources=" + sources_str(b, t.args[2])], "the tracing wrapper alters the acknowledged byte count", where=t.where(), instance="on_ack-len-source")
+                else:
+                    R.fail([fn, "call", "CongestionController::on_ack"], "on_ack invoked from an unaudited site", where=t.where(), instance="on_ack-len-source")
+    R.floor("CongestionController::on_ack call sites", n, 2)
+    # the other window-changing entry points are called where expected
+    for callee, allowed in (("congestion::CongestionController::on_retransmission_timeout", {STQ}), ("congestion::CongestionController::on_enter_recovery", {"recovery::Recovery::on_ack"}),
+                            ("congestion::CongestionController::on_recovered", {"recovery::Recovery::on_ack"})):
+        for b in F.bodies():
+            for t in b.calls():
+                if call_matches(t, (callee,)):
+                    fn = owner_fn(b)
+                    if fn in allowed or fn.startswith("<congestion::tracing::TracingController as"):
+                        R.ok("cc-event-callers:" + callee.split("::")[-1], fn)
+                    else:
+                        R.fail([fn, "call", callee.split("::")[-1]], "%s invoked from an unaudited site" % callee.split("::")[-1], where=t.where(), instance="cc-event-callers:" + callee.split("::")[-1])
